@@ -128,30 +128,102 @@ pub const MAX_SECS: u64 = 253_402_300_799;
 // ---------------------------------------------------------------------------------------------
 // Building the real event
 
+/// An error chain [top, its source, that one's source ...] as REAL `std::error::Error` values. How a link holds its
+/// source is part of the shape space ("errors with sources"): boxed behind a pointer, or INLINE as the first field of
+/// the link (a newtype-style wrapper: the link and its source then share one address). The layout is derived from the
+/// case data (total text length modulo 2), so it replays and shrinks with the case.
 #[derive(Debug)]
-pub struct ChainErr {
+pub enum ChainErr {
+    Boxed(BoxedErr),
+    Inline1(Inline0),
+    Inline2(Inline1),
+    Inline3(Inline2),
+}
+
+#[derive(Debug)]
+pub struct BoxedErr {
     msg: String,
-    source: Option<Box<ChainErr>>,
+    source: Option<Box<BoxedErr>>,
+}
+
+/// innermost inline link: no source
+#[derive(Debug)]
+#[repr(C)]
+pub struct Inline0 {
+    msg: String,
+}
+/// a link holding its source inline at offset 0
+#[derive(Debug)]
+#[repr(C)]
+pub struct Inline1 {
+    inner: Inline0,
+    msg: String,
+}
+#[derive(Debug)]
+#[repr(C)]
+pub struct Inline2 {
+    inner: Inline1,
+    msg: String,
 }
 
 impl ChainErr {
     pub fn new(chain: &[String]) -> ChainErr {
-        let mut it = chain.iter().rev();
-        let mut cur = ChainErr { msg: it.next().cloned().unwrap_or_default(), source: None };
-        for m in it {
-            cur = ChainErr { msg: m.clone(), source: Some(Box::new(cur)) };
+        let inline = chain.len() <= 3 && chain.iter().map(|m| m.len()).sum::<usize>() % 2 == 1;
+        if inline {
+            let m = |i: usize| chain.get(i).cloned().unwrap_or_default();
+            return match chain.len() {
+                0 | 1 => ChainErr::Inline1(Inline0 { msg: m(0) }),
+                2 => ChainErr::Inline2(Inline1 { inner: Inline0 { msg: m(1) }, msg: m(0) }),
+                _ => ChainErr::Inline3(Inline2 { inner: Inline1 { inner: Inline0 { msg: m(2) }, msg: m(1) }, msg: m(0) }),
+            };
         }
-        cur
+        let mut it = chain.iter().rev();
+        let mut cur = BoxedErr { msg: it.next().cloned().unwrap_or_default(), source: None };
+        for m in it {
+            cur = BoxedErr { msg: m.clone(), source: Some(Box::new(cur)) };
+        }
+        ChainErr::Boxed(cur)
+    }
+
+    pub fn is_inline(&self) -> bool {
+        !matches!(self, ChainErr::Boxed(_))
+    }
+
+    pub fn value(&self) -> emit::Value<'_> {
+        match self {
+            ChainErr::Boxed(e) => emit::Value::capture_error(e),
+            ChainErr::Inline1(e) => emit::Value::capture_error(e),
+            ChainErr::Inline2(e) => emit::Value::capture_error(e),
+            ChainErr::Inline3(e) => emit::Value::capture_error(e),
+        }
     }
 }
-impl std::fmt::Display for ChainErr {
-    fn fmt(&self, f: &mut std::fmt::Formatter<'_>) -> std::fmt::Result {
-        f.write_str(&self.msg)
-    }
+
+macro_rules! display_msg {
+    ($($t:ty),*) => {$(
+        impl std::fmt::Display for $t {
+            fn fmt(&self, f: &mut std::fmt::Formatter<'_>) -> std::fmt::Result {
+                f.write_str(&self.msg)
+            }
+        }
+    )*};
 }
-impl std::error::Error for ChainErr {
+display_msg!(BoxedErr, Inline0, Inline1, Inline2);
+
+impl std::error::Error for BoxedErr {
     fn source(&self) -> Option<&(dyn std::error::Error + 'static)> {
         self.source.as_ref().map(|s| &**s as &(dyn std::error::Error + 'static))
+    }
+}
+impl std::error::Error for Inline0 {}
+impl std::error::Error for Inline1 {
+    fn source(&self) -> Option<&(dyn std::error::Error + 'static)> {
+        Some(&self.inner)
+    }
+}
+impl std::error::Error for Inline2 {
+    fn source(&self) -> Option<&(dyn std::error::Error + 'static)> {
+        Some(&self.inner)
     }
 }
 
@@ -218,7 +290,7 @@ impl<'a> Held<'a> {
             Held::Kind(k) => k.to_value(),
             Held::Trace(t) => t.to_value(),
             Held::Span(s) => s.to_value(),
-            Held::Err(e) => emit::Value::capture_error(e),
+            Held::Err(e) => e.value(),
         }
     }
 }
